@@ -301,6 +301,42 @@ func contextRefs(e excellent.Expression) []string {
 	return out
 }
 
+// scopedRefs lists the context references of an expression with the uses of lambda parameters told apart: a name that
+// an enclosing anonymous function binds (compared as the evaluator's scope does, case-insensitively) refers to that
+// parameter, not to the context, and is listed as "λ:"+name.
+func scopedRefs(e excellent.Expression) []string {
+	var out []string
+	var rec func(e excellent.Expression, bound []string)
+	rec = func(e excellent.Expression, bound []string) {
+		switch t := e.(type) {
+		case nil:
+			return
+		case *excellent.ContextReference:
+			n := strings.ToLower(t.Name)
+			for _, b := range bound {
+				if b == n {
+					out = append(out, "λ:"+n)
+					return
+				}
+			}
+			out = append(out, n)
+			return
+		case *excellent.AnonFunction:
+			nb := append([]string{}, bound...)
+			for _, a := range t.Args {
+				nb = append(nb, strings.ToLower(a))
+			}
+			bound = nb
+		}
+		for _, c := range children(e) {
+			rec(c, bound)
+		}
+	}
+	rec(e, nil)
+	sort.Strings(out)
+	return out
+}
+
 func lambdaParams(e excellent.Expression) []string {
 	var out []string
 	walk(e, func(n excellent.Expression) {
